@@ -177,8 +177,9 @@ class Ctx:
                         f.write("\n".join(need) + "\n")
         except OSError:
             pass
-        # one binary per (command, property): checks sharing a harness command do not race on it
-        binp = os.path.join(OUT, "bin", cmd + "-" + self.pid + "-" + self.tier + ("-race" if race else ""))
+        # one binary per run (it lives in the run's scratch directory): neither checks sharing a harness
+        # command nor two runs of the same check race on it
+        binp = os.path.join(self.outdir, "bin-" + cmd + ("-race" if race else ""))
         if os.path.exists(binp):
             os.remove(binp)  # never run a stale binary
         env = dict(GOENV)
@@ -191,7 +192,6 @@ class Ctx:
             open(alt, "w").write(mod)
             shutil.copy(dst_sum, os.path.join(OUT, f"alt-{tag}.sum"))
             args += ["-modfile", alt]
-            binp = os.path.join(OUT, "bin", cmd + "-" + self.pid + "-" + self.tier + "-" + tag + ("-race" if race else ""))
         if race:
             args.append("-race")
             env["CGO_ENABLED"] = "1"
@@ -368,6 +368,10 @@ def finish(ctx, search=None):
         print(l)
     if not violations and not os.environ.get("VERIF_KEEP"):
         shutil.rmtree(ctx.outdir, ignore_errors=True)   # traces of a clean run are not needed any more
+    else:
+        for f in os.listdir(ctx.outdir) if os.path.isdir(ctx.outdir) else []:
+            if f.startswith("bin-"):                    # harness binaries are rebuilt by every run anyway
+                os.remove(os.path.join(ctx.outdir, f))
     ok = sum(1 for o in ctx.obligations if o["ok"])
     print(f"[{ctx.pid}] tier={ctx.tier} seed={ctx.seed} obligations={len(ctx.obligations)} discharged={ok} "
           f"evaluations={ctx.evaluations} violations={violations} wall={time.time() - ctx.t0:.1f}s")
